@@ -7,7 +7,7 @@ for P in "$@"; do
   for i in 1 2 3; do
     [ -f $MUTOUT/$P/patch$i.diff ] || continue
     C=$(/verif/tools/confirm_mutant.sh /tmp/mut/$P $MUTOUT/$P/patch$i.diff $MUTOUT/$P/demo$i.rs ${P}_$TAG$i 2>&1 | grep '^{' | tail -1)
-    R=$(/verif/tools/try_mutant.sh $P $MUTOUT/$P/patch$i.diff 2>&1 | grep -E "VIOLATION|tier=|exit=|INFRA|apply" | tr '\n' ' ')
+    R=$(/verif/tools/msb.sh try $P $MUTOUT/$P/patch$i.diff 2>&1 | grep -E "VIOLATION|tier=|exit=|INFRA|apply" | tr '\n' ' ')
     echo "$P $TAG$i $MUTOUT CONFIRM $C CHECK $R" >> $LOG
   done
 done
